@@ -221,14 +221,14 @@ Qed.
 
 Lemma ring_gap_rot N k a b : 0 <= k < N -> in_rec N a -> in_rec N b -> uncut N k a -> uncut N k b ->
   part_overlap a b = false ->
-  Z.min (C04.Proofs.wrap_gap N (rotp N k a) (rotp N k b)) (C04.Proofs.gap (rotp N k a) (rotp N k b))
-  = Z.min (C04.Proofs.wrap_gap N a b) (C04.Proofs.gap a b).
+  Z.min (ASV.C04.Model.wrap_gap N (rotp N k a) (rotp N k b)) (ASV.C04.Model.gap (rotp N k a) (rotp N k b))
+  = Z.min (ASV.C04.Model.wrap_gap N a b) (ASV.C04.Model.gap a b).
 Proof.
   intros Hk Ha Hb Hua Hub Ho.
   apply C04.Proofs.part_overlap_false in Ho; [|unfold C04.Proofs.wf_part, in_rec in *; lia|unfold C04.Proofs.wf_part, in_rec in *; lia].
   unfold in_rec, uncut, rotp in *.
   destruct (pe a + k <=? N) eqn:Ea; destruct (pe b + k <=? N) eqn:Eb;
-    unfold C04.Proofs.wrap_gap, C04.Proofs.gap, shiftp; cbn [ps pe];
+    unfold ASV.C04.Model.wrap_gap, ASV.C04.Model.gap, shiftp; cbn [ps pe];
     repeat match goal with |- context [?x <=? ?y] => destruct (x <=? y) eqn:? end; lia.
 Qed.
 
